@@ -31,6 +31,9 @@ func TestMain(m *testing.M) {
 			return err
 		}
 		_, err := checkModel(c)
+		if errors.Is(err, errHarness) {
+			return nil // the child could not be started: no verdict
+		}
 		return err
 	})
 	pbt.RegisterReplay("qdb_crash", func(raw json.RawMessage) error {
@@ -242,10 +245,12 @@ func tail(s string, n int) string {
 // ---------------------------------------------------------------------------------------------
 // oracle 1: any operation sequence is indistinguishable from the same sequence on a map
 
+var errHarness = errors.New("harness")
+
 func checkModel(c kvCase) (kvSummary, error) {
 	tmp, err := os.MkdirTemp("", "c19-")
 	if err != nil {
-		return kvSummary{}, nil
+		return kvSummary{}, fmt.Errorf("%w: %v", errHarness, err)
 	}
 	defer os.RemoveAll(tmp)
 	raw, _ := json.Marshal(c)
@@ -253,7 +258,7 @@ func checkModel(c kvCase) (kvSummary, error) {
 	os.WriteFile(cf, raw, 0o644)
 	out := runChild("model", "VERIF_C19_CASE="+cf, "VERIF_C19_DIR="+filepath.Join(tmp, "db"))
 	if out.err != nil {
-		return kvSummary{}, nil // could not even start the child: infrastructure
+		return kvSummary{}, fmt.Errorf("%w: cannot start the child process: %v", errHarness, out.err)
 	}
 	rl := resultLine(out.stdout)
 	if rl == "" {
@@ -376,6 +381,9 @@ func TestQdbModel(t *testing.T) {
 		c := genKVCase(r.T, modelWeights, steps, true)
 		r.Case(c)
 		sum, err := checkModel(c)
+		if errors.Is(err, errHarness) {
+			r.T.Fatalf("%v", err) // no replay file: the driver reports the run as inconclusive, not as a violation
+		}
 		if c.Cfg.Volatile {
 			r.Class("volatile")
 		} else {
